@@ -1,7 +1,7 @@
 (* C05 — Listed order, once per traversal; once per inner() call below a wrapper. *)
 From Coq Require Import List Arith Bool.
 Import ListNotations.
-From NJ Require Import Base Registry Classify Select Reorder Machine Spec Bind Refine Chain SpecLemmas PreserveProofs WfProofs EndToEnd TableSpec.
+From NJ Require Import Base Registry Classify Select Reorder Machine Spec Bind Refine Chain SpecLemmas PreserveProofs WfProofs EndToEnd EndToEnd2 TableSpec.
 
 (* In the reference semantics, with every provider logging its id and wrapper p calling inner()
    ncalls p times: the log is the list order, each provider once per traversal, everything below a
@@ -123,3 +123,30 @@ Proof.
   rewrite Ho, Ht in Hp. discriminate Hp.
 Qed.
 Print Assumptions C05_nothing_to_produce_never_hoisted.
+
+(* ... and for any session of init and invoke steps, with or without an init function: the static
+   part is logged once - by the first init step when there is an init function, by the first invoke
+   step otherwise. *)
+Theorem C05_log_of_any_session : forall (c : bcase) (pl : plan) (b : bound),
+  plain_case c = true -> bind_chain c = Ok (pl, b) ->
+  exists sp, splan_of (bc_te c) pl = Some sp /\
+    forall (ncalls : nat -> nat) (steps : list step) (w0 : list nat),
+      ss_w (list nat) (fst (run_session (list nat) o_fn (o_wrap ncalls) b (mkSess (list nat) w0 (bd_base0 b) false true) steps))
+      = w0 ++ steps_log ncalls sp false steps.
+Proof. exact plain_chain_session_log. Qed.
+Print Assumptions C05_log_of_any_session.
+
+Definition ex5b_pd (pid : nat) (s : shape) (cacheable : bool) : pdesc :=
+  mkPdesc pid 0 0 0 0 s false false cacheable false false false false false false false false false 0 [] None None [] 0 [1] false.
+Definition ex5b_case : bcase :=
+  mkCase ex5_te [ex5b_pd 1 (ShFn [] [10]) true; ex5b_pd 2 (ShFn [10] [11]) false; ex5b_pd 3 (ShFn [11] [12]) false]
+         (ex5b_pd 92 (ShFnPtr [] [12]) false) (Some (ex5b_pd 91 (ShFnPtr [] [10]) false)) [false; true].
+Example C05_session_log_nonvacuous :
+  plain_case ex5b_case = true /\
+  exists pl b sp, bind_chain ex5b_case = Ok (pl, b) /\ splan_of ex5_te pl = Some sp /\
+    steps_log (fun _ => 1) sp false [DoInit; DoInvoke; DoInit; DoInvoke] = [91; 1; 92; 2; 3; 91; 92; 2; 3].
+Proof.
+  split; [reflexivity|]. eexists. eexists. eexists.
+  split; [vm_compute; reflexivity|]. split; [vm_compute; reflexivity|]. vm_compute. reflexivity.
+Qed.
+Print Assumptions C05_session_log_nonvacuous.
